@@ -577,3 +577,17 @@ func VH_C16_DeleteSchedule() {
 	vx.Assert(vhOthersSame(s0, s1, "schedules"), "other-tables-unchanged")
 	vx.Reach("done")
 }
+
+// VH_T0_Smoke: engine smoke test (forking, assumptions, arithmetic).
+func VH_T0_Smoke() {
+	x := vx.Int64("x")
+	y := vx.Int64("y")
+	vx.Assume(vx.And(x > 0, y > 0, x < 100, y < 100))
+	if x > y {
+		vx.Reach("gt")
+		vx.Assert(x+y > 2*y, "sum")
+	} else {
+		vx.Reach("le")
+		vx.Assert(x+y <= 2*y, "sum2")
+	}
+}
